@@ -4,13 +4,14 @@ import reghist as rh
 PARTIAL = [
     'reading PIL text (read_pil) is not part of the histories',
     'CompOK is proved under two guards that the faithful model shows to be necessary: no explicit length 0 and class defaults different from 0 (op_guard, consts_nonzero), and the pair is {x, x*} with x itself unstarred',
-    'invert_never_refused_full (Proofs/RegExamples.v): in a Good state ~d is never refused; proved: whatever ~d and ~~d return is right (C04_invert_spec, C04_invert_involutive)',
-    'no_fuel_exhaustion_full: the fuel (8) of the DomainS recursion suffices for names with at most 5 trailing stars; OutOfFuel is a distinguished error outcome for which every theorem holds, and a correspondence failure',
+    "~d is never refused (C04_invert_never_refused) for positive lengths and names with an unstarred, non-empty base; the unguarded statement is refuted for negative lengths (C04_invert_refused_for_negative_length: DomainS('a', -3); ~a raises ValueError); the name '*' (empty base, never creatable) stays outside",
+    'the recursion fuel: proved that fuel k+3 suffices for k trailing stars (C04_no_fuel) and that the fuel 8 of `step` suffices for names with at most 5 trailing stars (C04_fuel_suffices); names with 6 or more trailing stars make the model answer OutOfFuel, which the harness counts as a disagreement (generators use at most 2)',
     'len() of a length above sys.maxsize (OverflowError) is not modelled',
 ]
 REFUTED = [
     "C04_CompOK_refuted_for_zero_length: DomainS('a*', 5); DomainS('a', 0) leaves a and a* live with lengths 0 and 5 (replayed on the implementation: both live, ~a raises SingletonError)",
     "C04_CompOK_refuted_for_double_star: DomainS('a**', 7); DomainS('a*', 5) leaves a** and its complement a* live with lengths 7 and 5 (replayed on the implementation; the other creation order is refused)",
+    "C04_invert_refused_for_negative_length: DomainS('a', -3); ~a raises ValueError (replayed on the implementation)",
 ]
 
 
